@@ -1645,11 +1645,6 @@ static void do_source_file(const char *filename_in,
    {
       fclose(pfout);
 
-      if (need_backup)
-      {
-         backup_create_md5_file(filename_in);
-      }
-
       if (filename_tmp != filename_out)
       {
          // We need to compare and then do a rename (but avoid redundant test when if_changed set)
@@ -1678,6 +1673,13 @@ static void do_source_file(const char *filename_in,
                exit(EX_IOERR);
             }
          }
+      }
+
+      if (need_backup)
+      {
+         // The md5 describes what uncrustify left in the file, so it has to be
+         // taken after the output was moved into place (see backup.h)
+         backup_create_md5_file(filename_in);
       }
 
       if (keep_mtime)
